@@ -148,6 +148,15 @@ func (e *Engine) comp(name, sort string) string {
 	return name
 }
 
+// nilMapEmpty: whatever else is arbitrary about a havocked map-domain component, the nil map has no keys.
+func (e *Engine) nilMapEmpty(c string, t Term) {
+	if !strings.HasPrefix(c, "MapDom$") {
+		return
+	}
+	ks := strings.TrimSuffix(strings.TrimPrefix(e.compSort[c], "(Array Loc (Array "), " Bool))")
+	e.vc.assume(fmt.Sprintf("(= (select %s nil) %s)", t, e.emptySet(ks)))
+}
+
 // get returns the current term of a component.
 func (e *Engine) get(st *State, comp string) Term {
 	if t, ok := st.heap[comp]; ok {
@@ -190,24 +199,40 @@ func (e *Engine) fieldComp(structT types.Type, i int) (comp string, boxed bool) 
 	return e.comp(name, fmt.Sprintf("(Array Loc %s)", e.vc.sortOf(ft))), false
 }
 
+// boxComp: the heap component holding cells of static type t that are not struct fields (slice
+// elements, variables whose address is taken, pointees of pointers to scalars). Cells of pointer or map
+// type are kept apart by their underlying Go type: without unsafe, a cell of type *A cannot be reached
+// through a pointer to a cell of type *B (pointer conversion needs identical underlying base types).
 func (e *Engine) boxComp(t types.Type) string {
 	s := e.vc.sortOf(t)
 	name := "Box$" + strings.Trim(s, "|")
+	if s == "Loc" {
+		switch u := types.Unalias(t).Underlying().(type) {
+		case *types.Pointer, *types.Map:
+			name += "$" + shortTypeKey(u)
+		}
+	}
 	return e.comp(name, fmt.Sprintf("(Array Loc %s)", s))
+}
+
+// mapTypeTag distinguishes maps by their Go type where the SMT sorts alone would merge them (pointer or
+// map valued maps, named key types): two maps of non-identical types cannot be the same object.
+func mapTypeTag(mt *types.Map) string {
+	return "$" + shortTypeKey(types.NewMap(types.Unalias(mt.Key()), types.Unalias(mt.Elem())))
 }
 
 func (e *Engine) mapDomComp(mt *types.Map) string {
 	ks := e.vc.sortOf(mt.Key())
 	vs := e.vc.sortOf(mt.Elem())
 	// one domain component per (key, value) type: maps of different types cannot alias
-	name := "MapDom$" + strings.Trim(ks, "|") + "$" + strings.Trim(vs, "|")
+	name := "MapDom$" + strings.Trim(ks, "|") + "$" + strings.Trim(vs, "|") + mapTypeTag(mt)
 	return e.comp(name, fmt.Sprintf("(Array Loc (Array %s Bool))", ks))
 }
 
 func (e *Engine) mapValComp(mt *types.Map) string {
 	ks := e.vc.sortOf(mt.Key())
 	vs := e.vc.sortOf(mt.Elem())
-	name := "MapVal$" + strings.Trim(ks, "|") + "$" + strings.Trim(vs, "|")
+	name := "MapVal$" + strings.Trim(ks, "|") + "$" + strings.Trim(vs, "|") + mapTypeTag(mt)
 	return e.comp(name, fmt.Sprintf("(Array Loc (Array %s %s))", ks, vs))
 }
 
@@ -911,6 +936,7 @@ func (fr *Frame) enterLoop(h *ssa.BasicBlock, edges []edgeIn, dry bool) *State {
 			continue
 		}
 		hst.heap[c] = vc.fresh("lh$"+c, e.compSort[c])
+		e.nilMapEmpty(c, hst.heap[c])
 	}
 	if fr.loopMods[h]["$alloc"] {
 		na := vc.fresh("alloc", "Int")
@@ -953,6 +979,27 @@ func (fr *Frame) enterLoop(h *ssa.BasicBlock, edges []edgeIn, dry bool) *State {
 // frameGoal: component c of st agrees with the entry heap on every pre-allocated location
 // that the function's modifies clause does not name. "" when not applicable.
 func (fr *Frame) frameGoal(c string, st *State) Term {
+	if fr.top && fr.con != nil && fr.con.ModAll && len(fr.con.Except) > 0 && !strings.HasPrefix(c, "$") {
+		e := fr.eng
+		if !strings.HasPrefix(e.compSort[c], "(Array Loc ") {
+			return ""
+		}
+		if !fr.frameDone {
+			fr.frameDone = true
+			menv := fr.specEnvFor(fr.entry)
+			fr.frameTs = menv.resolveModifies(fr.con.Except)
+		}
+		cur := e.get(st, c)
+		init := sym(c + "@0")
+		it := inTargets(fr.frameTs, c, "l!frame")
+		if it == "false" {
+			return ""
+		}
+		if cur == init {
+			return "true"
+		}
+		return fmt.Sprintf("(forall ((l!frame Loc)) (! (=> %s (= (select %s l!frame) (select %s l!frame))) :pattern ((select %s l!frame))))", it, cur, init, cur)
+	}
 	if !fr.top || fr.con == nil || !fr.con.HasMod || fr.con.ModAll || strings.HasPrefix(c, "$") {
 		return ""
 	}
